@@ -157,6 +157,8 @@ def to_perf(recs, shuffle_rng=None, layout=None, origin=ORIGIN):
     P.set_task_event(lay[5] if len(lay) > 5 else None)
     # a seventh element: True = the attribute lacks sample_id_all (COMM / MMAP2 records then carry no time at all)
     P.set_id_all(not (len(lay) > 6 and lay[6]))
+    # an eighth element: the main event ("cycles" = a hardware event with a fixed period; the default is the cpu-clock software event)
+    P.set_event(lay[7] if len(lay) > 7 else "cpu-clock")
     try:
         return _to_perf(recs, shuffle_rng, origin, lay[4] if len(lay) > 4 else "std")
     finally:
